@@ -186,6 +186,13 @@ func doPopulateStructFromCBOR(
 				typeField.Name, keyInt)
 		}
 
+		// a struct held by value in an embedded interface cannot be written
+		// to; say so instead of panicking
+		if !valField.CanAddr() {
+			return fmt.Errorf("cannot populate field %q (%d): not addressable (an embedded interface must hold a pointer)",
+				typeField.Name, keyInt)
+		}
+
 		fieldPtr := valField.Addr().Interface()
 		if err := dm.Unmarshal(rawVal, fieldPtr); err != nil {
 			return fmt.Errorf("error unmarshaling field %q: %w",
